@@ -9609,15 +9609,21 @@ def write(node, f, pretty=True, **kwargs):
     if pretty:
         _pretty_print(root)
     tree = ElementTree(root)
+    opened = None
     try:
         if f.lower().endswith("svgz"):
             import gzip
 
-            f = gzip.open(f, "wb")
+            f = opened = gzip.open(f, "wb")
     except AttributeError:
         # might be a pathlib.Path()
         pass
-    tree.write(f, **kwargs)
+    try:
+        tree.write(f, **kwargs)
+    finally:
+        if opened is not None:
+            # The compressed stream is only complete once it is closed.
+            opened.close()
 
 
 def _write_node(node, xml_tree=None, viewport_transform=None):
